@@ -716,6 +716,30 @@ Lemma scram_challenge_never_nil : forall H HMAC hsize precis id s msg s',
   m_next (scram_mech H HMAC hsize precis gen_scram_cfg id) s msg true <> (s', Some None).
 Proof. intros. rewrite gen_scram_cfg_fixed. apply next_more_never_nil. Qed.
 
+(* T1: nothing outside the scramAuth value carries over from one dialogue to the next: internal/pbkdf2 has no package-level
+   variable, no scramAuth method assigns a package-level variable of package smtp, reset() only assigns fields *)
+Lemma gen_no_cross_dialogue_state :
+  Gen.pbkdf2_package_vars = [] /\ Gen.scram_package_var_writes = [] /\ Gen.scram_reset_only_assigns_fields = true.
+Proof. repeat split; reflexivity. Qed.
+
+(* every dialogue of any sequence - whatever state its scramAuth value is in (fresh, or left by any history of earlier
+   dialogues), whatever is left of the randomness oracle - satisfies the single-dialogue statement *)
+Lemma scram_every_dialogue_authenticated :
+  forall (H : bytes -> bytes) (HMAC : bytes -> bytes -> bytes) (hsize : nat) (precis : bytes -> option bytes)
+         (id : scram_id) (lad a0 : bool) (ds : list (scram_state * list bytes * list reply)),
+    Forall (fun d => Forall (fun r => is_nil r = false) (snd (fst d))) ds ->
+    Forall (fun d =>
+      let f := auth (scram_mech H HMAC hsize precis gen_scram_cfg id) lad a0 (fst (fst d), snd (fst d)) (snd d) in
+      f_res f = ASuccess ->
+      (exists l0 e tail t3 m rest,
+          snd d = l0 ++ Reply code_challenge e :: tail ++ Reply code_success m :: rest /\
+          RunningExchange HMAC hsize precis id (snd (fst d)) (o_sent (f_out f)) l0 e tail t3)
+      \/ (exists m rest, snd d = Reply code_success m :: rest)) ds.
+Proof.
+  intros H HMAC hsize precis id lad a0 ds F. rewrite Forall_forall in *. intros [[st rands] script] I. simpl.
+  apply scram_success_authenticated. exact (F _ I).
+Qed.
+
 (* T1: literals of the computation the model hard-codes *)
 Lemma gen_scram_literals :
   Gen.scram_lits_client_proof = [bs "Client Key"] /\ Gen.scram_lits_server_sig = [bs "Server Key"] /\
